@@ -41,7 +41,10 @@ TEnd ==
   /\ LET p == pre[Len(pre)] IN
      /\ ("move" \in Checks /\ Ev.cmd \in Movement \cup Copy /\ ~p.minibuf /\ ~Ev.minibuf) => NoEdit(p, Ev)
      /\ ("kill" \in Checks /\ Ev.cmd \in Kill /\ ~p.minibuf /\ ~Ev.minibuf) => KillContract(p, Ev)
-     /\ ("yank" \in Checks /\ Ev.cmd \in Yank /\ ~p.minibuf /\ ~Ev.minibuf) => YankContract(p, Ev, MaxRepeat)
+     \* (vi-put-before of LINEWISE text - a register ending in a newline - opens a line above instead of
+     \*  inserting at point; the property claims vi-put-before only after delete-character)
+     /\ ("yank" \in Checks /\ Ev.cmd \in Yank /\ ~p.minibuf /\ ~Ev.minibuf
+            /\ ~(Ev.cmd = "vi-put-before" /\ p.kill # <<>> /\ p.kill[Len(p.kill)] = NL)) => YankContract(p, Ev, MaxRepeat)
   /\ pre' = SubSeq(pre, 1, Len(pre) - 1)
   /\ last' = IF Len(pre) = 1 THEN [line |-> Ev.line, set |-> TRUE] ELSE last
 TReturn ==
